@@ -188,9 +188,9 @@ class Db:
         out = {}
         for d in self.t.qf:
             op = d["op"]
-            if op in ("lookup", "uniq"):
+            if op in ("lookup", "uniq", "errflag"):
                 continue
-            if op in ("gcount", "errflag"):
+            if op == "gcount":
                 out[d["fn"]] = self.query(d)
             elif op in ("at", "atfield", "atflag"):
                 out[d["fn"]] = [[self.query(d, i, n) for n in range(maxpos)] for i in range(maxidx + 1)]
